@@ -41,7 +41,8 @@ def check(world, tier):
         return rep
     eng = world.run("listen")
     g = graph_of(eng)
-    fi = {n: prog.field_index(SERVER, n) for n in ("socket", "single_port", "largest_block_size", "clients", "duplicate_packets")}
+    lay = world.server_layout()
+    fi = {n: (tuple(lay[n]) if lay.get(n) is not None else None) for n in ("socket", "single_port", "largest_block_size", "clients", "duplicate_packets")}
     self_root = ("P", ("L", eng.entry_frame, 1), ())
     rep.analysed = {"entry": LISTEN, "supergraph_nodes": len(eng.nodes), "call_events": len(eng.events),
                     "regions": sorted(set(e.region for e in eng.events)), "thread_entries": list(eng.thread_entries.keys())}
@@ -135,7 +136,7 @@ def check(world, tier):
     for e in blocking:
         n = base_name(e)
         ok = (n == "std::net::UdpSocket::recv_from" and e.body.endswith("socket::Socket>::recv_from_with_size")
-              and refers_to(e.args[0], self_root, (fi["socket"],)))
+              and refers_to(e.args[0], self_root, (fi["socket"] or ())))
         if ok:
             allowed += 1
         d.ob(ok, "blocking-call %s in %s" % (n, short(e.body)),
@@ -143,7 +144,7 @@ def check(world, tier):
              sample={"blocking": n, "in": short(e.body), "allowed": ok})
     d.need(allowed, 1, "loop-head receive on the listening socket")
     for e in events(eng, callee_is("std::net::UdpSocket::set_read_timeout", "std::net::UdpSocket::set_nonblocking"), region="listener"):
-        bad = refers_to(e.args[0], self_root, (fi["socket"],))
+        bad = refers_to(e.args[0], self_root, (fi["socket"] or ()))
         d.ob(not bad, "listening-socket-timeout in %s" % short(e.body), "read timeout / non-blocking mode set on the listening socket", e.loc)
 
     # ---------------------------------------------------------------- C05.e type invariant
@@ -154,7 +155,7 @@ def check(world, tier):
         oks = [s for s in en.finals if ret_discr(en, s) == 0]
         t.need(len(oks), 1, "Ok return states of Server::new")
         for s in oks:
-            v = s.store.get(("L", en.entry_frame, 0), {}).get((("v", 0), 0, fi["largest_block_size"]))
+            v = s.store.get(("L", en.entry_frame, 0), {}).get((("v", 0), 0) + fi["largest_block_size"])
             ok = v is not None and v[0] == "i" and s.ctx.entails(lin.le(lin.const(512), v[1])) and s.ctx.entails(lin.le(v[1], lin.const(65464)))
             t.ob(ok, "server-new-invariant", "Server::new does not establish 512 <= largest_block_size <= 65464",
                  sample={"Server::new largest_block_size": lin.show(v[1]) if v is not None and v[0] == "i" else repr(v)})
@@ -168,7 +169,7 @@ def check(world, tier):
         # the loop invariant found for listen's loop must contain the bounds (it is what C05.a relied on)
         hs = [v for k, v in eng.loop_heads.items() if k[0] == eng.entry_frame]
         for S in hs:
-            v = eng.read(S, self_root, (fi["largest_block_size"],))
+            v = eng.read(S, self_root, fi["largest_block_size"])
             ok = v[0] == "i" and S.ctx.entails(lin.le(lin.const(512), v[1])) and S.ctx.entails(lin.le(v[1], lin.const(65464)))
             t.ob(ok, "listen-loop-invariant", "512 <= largest_block_size <= 65464 is not an invariant of the listen loop "
                  "(a request can shrink the listener's receive buffer below a request's size, or grow it without bound)",
@@ -298,7 +299,7 @@ def lemma_conn(world, eng, o, self_root, fi):
     if any(ret_discr(e2, s) != 0 for s in e2.finals) or not e2.finals:
         return None, "ServerSocket::remote_addr can return Err"
     connects = [e for e in eng.events if base_name(e) == "std::net::UdpSocket::connect" and e.region == "listener"]
-    sp = eng.sym_ids.get(("init", self_root, (fi["single_port"],)))
+    sp = eng.sym_ids.get(("init", self_root, (fi["single_port"] or ())))
     for ctx in o.states:
         ok = False
         if sp is not None and ctx.infeasible_with([lin.le(lin.var(sp), lin.const(0)), lin.le(lin.const(0), lin.var(sp))]):
